@@ -67,7 +67,13 @@ func (k Keeper) SendNftTransfer(
 	}
 
 	// determine whether nft is sent from the source chain or sent back to the source chain from other chains
-	awayFromOrigin := k.determineAwayFromOrigin(fullClassPath, destChain)
+	// only a voucher (a class this module created, "tibc-<hash>") can travel back towards its
+	// origin; a native class moves away from origin even if its name looks like a class path,
+	// otherwise a self-minted "nft/<A>/<B>/<class>" would release <class> from A's escrow
+	awayFromOrigin := true
+	if strings.HasPrefix(class, CLASSPREFIX) {
+		awayFromOrigin = k.determineAwayFromOrigin(fullClassPath, destChain)
+	}
 
 	// get the next sequence
 	sequence := k.pk.GetNextSequenceSend(ctx, sourceChain, destChain)
